@@ -319,11 +319,9 @@ def run(rep, tier):
 
     def body2(c):
         try:
-            nmsg, _ = c13.execute(G, c)
+            nmsg, _ = c13.execute_confirmed(G, c, rep)
         except core.Failure as f:
-            if "TimeoutError" in f.message and f.signature in ("request-failed", "message-count", "refresh-failed", "lost-probe-outcome"):
-                nmsg, _ = c13.execute(G, c, slow=True)
-            elif f.signature in NOT_OURS:
+            if f.signature in NOT_OURS:
                 # what a session reports about itself / whether discovery completes is C13's statement, not this one
                 rep.count("discovered_session_failures_left_to_C13")
                 return
